@@ -26,6 +26,7 @@ import (
 type cdoc struct {
 	g, p, b int64
 	tag     string
+	c       int64 // counter, only ever changed by read-modify-write increments
 }
 
 type cstate struct {
@@ -45,7 +46,7 @@ func (s *cstate) String() string {
 	b.WriteString("|")
 	for _, id := range ids {
 		d := s.docs[id]
-		fmt.Fprintf(&b, "%s:%d,%d,%d,%s;", id, d.g, d.p, d.b, d.tag)
+		b.WriteString(docLine(id, d))
 	}
 	return b.String()
 }
@@ -64,11 +65,12 @@ func parseState(str string) *cstate {
 				continue
 			}
 			i := strings.IndexByte(rec, ':')
-			fs := strings.SplitN(rec[i+1:], ",", 4)
+			fs := strings.SplitN(rec[i+1:], ",", 5)
 			g, _ := strconv.ParseInt(fs[0], 10, 64)
 			p, _ := strconv.ParseInt(fs[1], 10, 64)
 			b, _ := strconv.ParseInt(fs[2], 10, 64)
-			s.docs[rec[:i]] = cdoc{g, p, b, fs[3]}
+			cnt, _ := strconv.ParseInt(fs[3], 10, 64)
+			s.docs[rec[:i]] = cdoc{g: g, p: p, b: b, c: cnt, tag: fs[4]}
 		}
 	}
 	return s
@@ -89,6 +91,8 @@ func (o cop) String() string {
 		return fmt.Sprintf("Insert(%d docs tag=%s g=%d p=%d)", len(o.IDs), o.Tag, o.G, o.Val)
 	case "update":
 		return fmt.Sprintf("UpdateById(%s, p=%d)", short(o.IDs[0]), o.Val)
+	case "incr":
+		return fmt.Sprintf("UpdateById(%s, c=c+1)", short(o.IDs[0]))
 	case "replace":
 		return fmt.Sprintf("ReplaceById(%s, g=%d tag=%s p=%d)", short(o.IDs[0]), o.G, o.Tag, o.Val)
 	case "delete":
@@ -119,7 +123,9 @@ type cout struct {
 	Snap  string // canonical rendering of what a read returned
 }
 
-func docLine(id string, d cdoc) string { return fmt.Sprintf("%s:%d,%d,%d,%s;", id, d.g, d.p, d.b, d.tag) }
+func docLine(id string, d cdoc) string {
+	return fmt.Sprintf("%s:%d,%d,%d,%d,%s;", id, d.g, d.p, d.b, d.c, d.tag)
+}
 
 // cstep is the sequential specification.
 func cstep(state, input, output interface{}) (bool, interface{}) {
@@ -146,8 +152,19 @@ func cstep(state, input, output interface{}) (bool, interface{}) {
 			return false, st
 		}
 		for _, id := range in.IDs {
-			s.docs[id] = cdoc{in.G, in.Val, -1, in.Tag}
+			s.docs[id] = cdoc{g: in.G, p: in.Val, b: -1, tag: in.Tag}
 		}
+		return true, s.String()
+	case "incr":
+		d, ok := s.docs[in.IDs[0]]
+		if !ok {
+			return out.Class == EDocNo, st
+		}
+		if out.Class != OK {
+			return false, st
+		}
+		d.c++
+		s.docs[in.IDs[0]] = d
 		return true, s.String()
 	case "update":
 		d, ok := s.docs[in.IDs[0]]
@@ -168,7 +185,7 @@ func cstep(state, input, output interface{}) (bool, interface{}) {
 		if out.Class != OK {
 			return false, st
 		}
-		s.docs[in.IDs[0]] = cdoc{in.G, in.Val, -1, in.Tag}
+		s.docs[in.IDs[0]] = cdoc{g: in.G, p: in.Val, b: -1, tag: in.Tag}
 		return true, s.String()
 	case "delete":
 		if out.Class != OK && out.Class != EDocNo {
@@ -305,7 +322,8 @@ func docToC(d *document.Document) (string, cdoc) {
 	p, _ := d.Get("p").(int64)
 	b, _ := d.Get("b").(int64)
 	tag, _ := d.Get("tag").(string)
-	return d.ObjectId(), cdoc{g, p, b, tag}
+	cnt, _ := d.Get("c").(int64)
+	return d.ObjectId(), cdoc{g: g, p: p, b: b, c: cnt, tag: tag}
 }
 
 func mkConcDoc(id string, d cdoc) *document.Document {
@@ -315,6 +333,7 @@ func mkConcDoc(id string, d cdoc) *document.Document {
 	doc.Set("p", d.p)
 	doc.Set("b", d.b)
 	doc.Set("tag", d.tag)
+	doc.Set("c", d.c)
 	return doc
 }
 
@@ -384,7 +403,7 @@ func (cr *concRun) client(id int, r *gen.Rng, nops int, groups int64, wg *sync.W
 		core.Tick()
 		var in cop
 		var out cout
-		switch r.Weighted([]int{18, 12, 6, 5, 10, 4, 3, 2, 18, 6, 8, 3, 5}) {
+		switch r.Weighted([]int{18, 8, 6, 5, 10, 4, 3, 2, 18, 6, 8, 3, 5, 12}) {
 		case 0: // insert batch
 			n := r.Range(1, 5)
 			if r.P(35) {
@@ -396,7 +415,7 @@ func (cr *concRun) client(id int, r *gen.Rng, nops int, groups int64, wg *sync.W
 			for k := range docs {
 				uid := r.UUID()
 				in.IDs = append(in.IDs, uid)
-				docs[k] = mkConcDoc(uid, cdoc{in.G, in.Val, -1, in.Tag})
+				docs[k] = mkConcDoc(uid, cdoc{g: in.G, p: in.Val, b: -1, tag: in.Tag})
 			}
 			call := cr.tick()
 			err := Do(func() error { return db.Insert("k", docs...) })
@@ -441,7 +460,7 @@ func (cr *concRun) client(id int, r *gen.Rng, nops int, groups int64, wg *sync.W
 			}
 			in = cop{Kind: "replace", IDs: []string{k.id}, G: k.g, Tag: k.tag, Val: cr.nextVal()}
 			call := cr.tick()
-			err := Do(func() error { return db.ReplaceById("k", k.id, mkConcDoc(k.id, cdoc{k.g, in.Val, -1, k.tag})) })
+			err := Do(func() error { return db.ReplaceById("k", k.id, mkConcDoc(k.id, cdoc{g: k.g, p: in.Val, b: -1, tag: k.tag})) })
 			out = cout{Class: classifyConc(err)}
 			cr.record(id, in, call, out)
 			cr.after(err, in)
@@ -563,6 +582,25 @@ func (cr *concRun) client(id int, r *gen.Rng, nops int, groups int64, wg *sync.W
 			})
 			sort.Strings(fs)
 			out = cout{Class: classifyConc(err), Snap: strings.Join(fs, ",")}
+			cr.record(id, in, call, out)
+			cr.after(err, in)
+			continue
+		case 13: // read-modify-write increment: lost updates are not linearizable
+			k, ok := cr.pickKnown(r, false)
+			if !ok {
+				continue
+			}
+			in = cop{Kind: "incr", IDs: []string{k.id}}
+			call := cr.tick()
+			err := Do(func() error {
+				return db.UpdateById("k", k.id, func(d *document.Document) *document.Document {
+					n := d.Copy()
+					cnt, _ := d.Get("c").(int64)
+					n.Set("c", cnt+1)
+					return n
+				})
+			})
+			out = cout{Class: classifyConc(err)}
 			cr.record(id, in, call, out)
 			cr.after(err, in)
 			continue
